@@ -7,6 +7,9 @@
 #   C04  the joiner kind follows the JOIN spelling and wraps a map built from the whole join table
 # DESIGN section 10.
 
+namedtuple_types('rbql_engine.VariableInfo', initialize=Bool, index=Int)
+VMap = Dict[Str, NT['rbql_engine.VariableInfo']]
+
 classdef('rbql_engine.RBQLTableRegistry')
 classdef('rbql_engine.RBQLContext',
          fields=dict(aggregation_key_expression=Opt[Str], join_map_impl=Opt[Obj['rbql_engine.HashJoinMap']], lhs_join_var_expression=Opt[Str], where_expression=Opt[Str],
@@ -44,7 +47,8 @@ def _(self: Obj['rbql_engine.RBQLInputIterator'], modifier_name: Str):
 
 
 @trusted('rbql_engine.RBQLInputIterator.get_variables_map', trusted='A-ITER / A-PARSE: variable discovery over the query text (regexes); bounded stand-in bounded/jobs_misc.py')
-def _(self: Obj['rbql_engine.RBQLInputIterator'], query_text: Str) -> Opaque:
+def _(self: Obj['rbql_engine.RBQLInputIterator'], query_text: Str) -> VMap:
+    ensures(vmap_ok(result) and is_fresh(result), 'a_new_map_with_zero_based_column_indices')
     raises('rbql_engine.RbqlParsingError', True, 'unknown_column')
     raises('rbql_engine.RbqlIOHandlingError', True, 'names_do_not_fit_the_table')
 
@@ -62,24 +66,19 @@ def _(self: Obj['rbql_engine.RBQLTableRegistry'], table_id: Str, single_char_ali
 
 
 @trusted('rbql_engine.parse_join_expression', trusted='A-PARSE: JOIN clause text -> (table id, key pairs); bounded stand-in bounded/jobs_rel.py')
-def _(src: Str) -> Tuple[Str, Opaque]:
+def _(src: Str) -> Tuple[Str, List[Tuple[Str, Str]]]:
+    ensures(len(result[1]) >= 1, 'at_least_one_key_pair')
     raises('rbql_engine.RbqlParsingError', True, 'bad_join_syntax')
 
 
-@trusted('rbql_engine.resolve_join_variables', trusted='A-PARSE: key pairs -> A-side key expressions and B-side key indices (-1 = bNR), at least one; bounded stand-in bounded/jobs_rel.py')
-def _(input_variables_map: Opaque, join_variables_map: Opaque, variable_pairs: Opaque, string_literals: List[Str]) -> Tuple[List[Str], List[Int]]:
-    ensures(len(result[0]) >= 1 and len(result[1]) == len(result[0]) and is_fresh(result[0]) and is_fresh(result[1]), 'one_key_expression_per_index')
-    ensures(forall(Int, lambda i: implies(0 <= i and i < len(result[1]), contents(result[1])[i] >= -1)), 'indices_are_fields_or_the_record_number')
-    raises('rbql_engine.RbqlParsingError', True, 'unknown_or_ambiguous_key')
-
 
 @trusted('rbql_engine.generate_init_statements', trusted='A-PARSE: variable initialisation text')
-def _(query_text: Str, variables_map: Opaque, join_variables_map: Opaque) -> Str:
+def _(query_text: Str, variables_map: VMap, join_variables_map: Opt[VMap]) -> Str:
     pass
 
 
 @trusted('rbql_engine.translate_update_expression', trusted='A-PARSE: assignment list -> safe_set calls; bounded stand-in bounded/jobs_rel.py')
-def _(update_expression: Str, input_variables_map: Opaque, string_literals: List[Str]) -> Str:
+def _(update_expression: Str, input_variables_map: VMap, string_literals: List[Str]) -> Str:
     raises('rbql_engine.RbqlParsingError', True, 'bad_update_expression')
 
 
@@ -93,7 +92,7 @@ def _(rb_actions: ACTIONS) -> Opt[Int]:
 
 
 @trusted('rbql_engine.translate_except_expression', trusted='A-PARSE: EXCEPT list -> (output header, select_except call text)')
-def _(except_expression: Str, input_variables_map: Opaque, string_literals: List[Str], input_header: Opt[List[Str]]) -> Tuple[Opt[List[Str]], Str]:
+def _(except_expression: Str, input_variables_map: VMap, string_literals: List[Str], input_header: Opt[List[Str]]) -> Tuple[Opt[List[Str]], Str]:
     raises('rbql_engine.RbqlParsingError', True, 'unknown_field')
 
 
@@ -186,10 +185,11 @@ def _(query_text: Str, input_iterator: Opt[Obj['rbql_engine.RBQLInputIterator']]
     requires(fresh_writer(query_context.writer) and not query_context.writer.sorted_iface and query_context.writer.header_calls == 0 and is_none(query_context.sort_key_expression)
              and is_none(query_context.top_count) and is_none(query_context.join_map) and query_context.aggregation_stage == 0, 'fresh_context')
     requires(not same(query_context.writer, query_context.input_iterator), 'writer_is_not_the_iterator')
-    local_types(rb_actions=ACTIONS, input_header=Opt[List[Str]], join_header=Opt[List[Str]], join_variables_map=Opt[Opaque], output_header=Opt[List[Str]])
+    local_types(rb_actions=ACTIONS, input_header=Opt[List[Str]], join_header=Opt[List[Str]], join_variables_map=Opt[VMap], input_variables_map=VMap, output_header=Opt[List[Str]])
     cut('if JOIN in rb_actions:', skel(query_context, old(query_context.writer), opt_val(input_iterator), rb_actions) and same(query_context.writer, old(query_context.writer))
         and old(query_context.writer).header_calls == 0 and not query_context.writer.sorted_iface and is_none(query_context.sort_key_expression) and is_none(query_context.join_map)
-        and allocated(string_literals) and implies(not is_none(input_header), allocated(opt_val(input_header))) and is_none(join_header), 'before_join')
+        and allocated(string_literals) and implies(not is_none(input_header), allocated(opt_val(input_header))) and is_none(join_header)
+        and vmap_ok(input_variables_map) and allocated(input_variables_map), 'before_join')
     cut('if UPDATE in rb_actions:', skel(query_context, old(query_context.writer), opt_val(input_iterator), rb_actions) and same(query_context.writer, old(query_context.writer))
         and old(query_context.writer).header_calls == 0 and not query_context.writer.sorted_iface and is_none(query_context.sort_key_expression)
         and allocated(string_literals) and implies(not is_none(input_header), allocated(opt_val(input_header))) and implies(not is_none(join_header), allocated(opt_val(join_header))) and implies(is_none(input_header), is_none(join_header)) and null_width_ok(query_context), 'before_update', hide=['max_width'])
